@@ -234,3 +234,42 @@ def c13j(F, R):
                     R.ok(f"match#{n}", detail="newline and comment both have an arm", where=loc(x))
                 else:
                     R.bad(f"match#{n}|{'+'.join(sorted(allk & {'Newline', 'Comment'}))}", f"a match on the token kind handles {sorted(allk & {'Newline', 'Comment'})} but not the other line end", loc(x))
+
+
+@rule("C17", "C17.j.one-number-grammar", floor=3)
+@rule("C13", "C13.k.one-number-grammar", floor=3)
+def c13k(F, R):
+    """source text is turned into a number in exactly one place, `Imm::from_str` (sign, `0x`, `0b`, decimal): every other reader of a numeric operand - a CSR number, a data value - goes through it, so that all notations are accepted wherever a number is; a second hand-written reader (`from_str_radix` / `str::parse::<int>` elsewhere in the parser) knows fewer notations and the same program written with `0b..` is read differently"""
+    home = F.method(P + "imm::Imm", "from_str", trait="core::str::traits::FromStr")
+    n_home = 0
+    for q, g in sorted(F.fns.items()):
+        if "mir" not in g and "hir" not in g:
+            continue
+        if not q.startswith("riscv_analysis::parser::") and "riscv_analysis::parser::" not in q.split(" as ")[0]:
+            continue
+        if "hir" not in g:
+            continue
+        for c in walk(g["hir"]["value"], pats=False):
+            if c.get("k") not in ("Call", "MethodCall"):
+                continue
+            cal = callee_of(c) or declared_callee(c) or ""
+            isint = re.search(r"<impl [iu](\d+|size)>::from_str_radix$", cal) is not None
+            if c.get("k") == "MethodCall" and c["name"] == "parse" and re.match(r"^[iu](\d+|size)$", (c.get("gargs") or ["?"])[-1] or ""):
+                isint = True
+            if not isint:
+                continue
+            root = q.split("::{closure")[0]
+            if root == home:
+                n_home += 1
+                R.ok(f"Imm::from_str|{n_home}", detail="the number reader", where=loc(c))
+            else:
+                R.bad(f"{short(root)}|{short(cal) or 'parse'}", f"`{root}` reads a number from source text by itself (`{short(cal) or 'parse'}`) instead of through Imm::from_str: it does not know every notation Imm::from_str accepts (sign, 0x, 0b), so an operand written in the missing notation is rejected there and accepted everywhere else", loc(c))
+    if n_home < 3:
+        R.bad("home", f"Imm::from_str contains {n_home} number conversions; expected the hexadecimal, binary and decimal readers", F.fn(home)["sp"])
+    # the CSR operand reader hands numbers on to Imm::from_str
+    cp = F.method(P + "imm::CsrImm", "from_str", trait="core::str::traits::FromStr")
+    cg = F.fn(cp)
+    if any(c.get("k") in ("Call", "MethodCall") and (callee_of(c) or "") == home for c in walk(cg["hir"]["value"], pats=False)):
+        R.ok("CsrImm::from_str", detail="numeric CSR operands are read by Imm::from_str", where=cg["sp"])
+    else:
+        R.bad("CsrImm::from_str", "CsrImm::from_str does not pass a numeric operand to Imm::from_str", cg["sp"])
